@@ -68,6 +68,39 @@ def run(F, want=None):
                     r.fail(iid, t2["span"],
                            "%s: the reduced Helmholtz energy returned by `%s` for a `%s` is multiplied with %s instead of the dual temperature of "
                            "that state: the temperature derivatives of this order lose the product-rule terms" % (b.path, nm, sty[:60], why))
+    # (b) who may read the real-valued reduced state variables: only the derive* constructors (which lift them into dual
+    #     numbers), Clone and Debug — everywhere else the dual twin of the StateHD has to be used
+    if not want:
+        import json
+        nread = 0
+        for b in F.bodies:
+            if not b.path.startswith("feos_core::"):
+                continue
+            hits = set()
+            for bi, si, st in b.stmts():
+                s_ = json.dumps(st["rv"])
+                for f in ("reduced_temperature", "reduced_volume", "reduced_moles"):
+                    if '"n": "%s"' % f in s_ and '"o": "feos_core::state::State"' in s_:
+                        hits.add(f)
+            for bi, t in b.calls():
+                s_ = json.dumps(t["args"])
+                for f in ("reduced_temperature", "reduced_volume", "reduced_moles"):
+                    if '"n": "%s"' % f in s_ and '"o": "feos_core::state::State"' in s_:
+                        hits.add(f)
+            if not hits:
+                continue
+            nread += 1
+            fn = b.path.split("::{closure")[0]
+            last = fn.split("::")[-1]
+            allowed = last in ("derive0", "derive1", "derive2", "derive2_mixed", "derive3", "clone", "fmt") or "::new_nvt_unchecked" in fn or fn.endswith("State::<E>::new_nvt_unchecked")
+            iid = "reduced|%s" % fn
+            if allowed:
+                r.inst(iid, b.file_line(), "ok", reads=sorted(hits))
+            else:
+                r.inst(iid, b.file_line(), "violation", reads=sorted(hits))
+                r.fail(iid, b.file_line(), "%s reads the real-valued %s of the state: outside the derive* constructors the dual state variables of the "
+                       "StateHD must be used, a real-valued copy drops derivative information" % (b.path, ", ".join(sorted(hits))))
+        r.floor("readers of the reduced state variables", nread, 7)
     r.floor("beta*A -> A conversions on dual states", n, 9 if not want else 4)
     r.exhaustive = True
     return [r]
